@@ -1,1 +1,6 @@
-fn main(){}
+use tgv_ide::*;
+
+fn main() {
+    ws::clean_env();
+    tgv_core::main_for(&[&c15::C15]);
+}
